@@ -53,8 +53,11 @@ class TimeActiveDecorator(TriggerHandlerDecorator, AutoKwargsDecorator):
             if not await trigger.TrigTime.timer_active_check(self.args, now, self.dm.startup_time):
                 return False
 
-        self.last_trig_time = time.monotonic()
         return True
+
+    def dispatch_accepted(self, data: DispatchData) -> None:
+        """Start the hold_off interval only at occurrences that all guards accepted."""
+        self.last_trig_time = time.monotonic()
 
 
 class TimeTriggerDecorator(TriggerDecorator):
